@@ -130,11 +130,12 @@ def spec_hash(spec_dir, extra=""):
 
 def run_tlc(spec_dir, module, cfg, workers=8, timeout=600, simulate=None, depth=None,
             coverage=False, env=None, dfs=False, xss=None, xmx="8g", cache_key=None,
-            seed=None, keep_tags=None, deadlock=False):
+            seed=None, keep_tags=None, deadlock=False, lib=None):
     """Run TLC on spec_dir/module.tla with spec_dir/cfg.  Returns TlcResult."""
     spec_dir = os.path.join(SPEC, spec_dir) if not os.path.isabs(spec_dir) else spec_dir
+    libdir = (os.path.join(SPEC, lib) if lib and not os.path.isabs(lib) else lib)
     if cache_key is not None:
-        key = spec_hash(spec_dir, f"{module}|{cfg}|{simulate}|{depth}|{cache_key}")
+        key = spec_hash(spec_dir, f"{module}|{cfg}|{simulate}|{depth}|{cache_key}" + (spec_hash(libdir) if libdir else ""))
         cpath = os.path.join(CACHE, f"{module}-{cfg}-{key}.json.gz")
         if os.path.exists(cpath):
             try:
@@ -150,6 +151,8 @@ def run_tlc(spec_dir, module, cfg, workers=8, timeout=600, simulate=None, depth=
         jopts.append(f"-Xss{xss}")
     if dfs:
         jopts.append("-Dtlc2.tool.queue.IStateQueue=StateDeque")
+    if libdir:
+        jopts.append(f"-DTLA-Library={libdir}")
     cmd = ["java", f"-Xmx{xmx}", "-XX:+UseParallelGC"] + jopts + [
         "-cp", TLA_JAR + ":/opt/veriftools/tla/CommunityModules-deps.jar", "tlc2.TLC",
         "-workers", str(workers), "-metadir", meta, "-cleanup", "-noGenerateSpecTE",
